@@ -18,6 +18,12 @@ package main
 //   feed    <event>+<ms>: the application starts handing message lists to the client (msgsToPanel) that long after the
 //           event (same events as cancel); fn lists (default 3), fi ms apart (default 150), each offered until someone
 //           takes it; fq = capacity of the msgsToPanel channel (default 0)
+//           fb = bytes of text in every message of a list (default 0 = a small state message): large lists keep the writer
+//           goroutine inside conn.Write for a while
+//   loss    how the panel loses the `cyc` connections: close (default: half-close after stream[0:cut]) | stall (sends
+//           stream[0:cut] and then stays silent with the connection open: a binary client must give the connection up
+//           itself when `cut` lies inside a frame) | over (sends stream[0:cut] and then the header of a 500000-byte frame)
+//   cpause  <event>+<ms>: the consumer of msgsFromPanel stops receiving that long after the event, for `cdur` ms (default 600)
 //   stream  bytes the panel sends after the probe (hex); exp = expected delivery token per complete frame
 //
 // Trace events (ms since the call of ConnectToPanel):
@@ -26,11 +32,14 @@ package main
 //   peof:k:eof|rst|other (panel saw the client's end of connection k) | pclose:k (panel fully closed k)
 //   con:k:bin:errhex | dis:k:b | del:tok,tok | ret | wg | wgblocked | nowg | noret | gor:n | gor2:n | hk:<point>:i | hk:release | lag:ms | end
 //   feed:i (list i offered on msgsToPanel) | fed:i (the send completed)
+//   pst:k:off (panel goes silent after off bytes, connection open) | ovr:k (panel sends an over-limit header)
+//   cstop | cres (the consumer of msgsFromPanel stops / resumes receiving)
 
 import (
 	"context"
 	"encoding/hex"
 	"net"
+	"runtime/debug"
 	"runtime/pprof"
 	"strconv"
 	"strings"
@@ -46,6 +55,17 @@ import (
 const nlHookKey = "rawpanel-verif-hook"
 
 var nlScriptSeq int64
+
+// A socket the client forgot to close would be closed by the garbage collector's finalizer of net.Conn a moment later
+// and the panel would see an orderly EOF: while lifecycle scripts run, the collector only works when memory gets tight.
+var nlGCOnce sync.Once
+
+func nlHoldGC() {
+	nlGCOnce.Do(func() {
+		debug.SetGCPercent(-1)
+		debug.SetMemoryLimit(3 << 30)
+	})
+}
 
 type lifeExec struct{}
 
@@ -70,6 +90,7 @@ func (lifeExec) Exec(cmd string, args []string) string {
 	if cmd != "life.run" {
 		return "err:unknown-record"
 	}
+	nlHoldGC()
 	var res string
 	p := guarded(func() { res = nlRunLife(nlKV(args)) })
 	if p != "" {
@@ -106,6 +127,7 @@ func nlRunLife(a map[string]string) string {
 	if hold > len(stream) {
 		hold = len(stream)
 	}
+	loss := a["loss"]
 	cev, cms := nlParseTrigger(a["cancel"])
 	maxms := nlInt(a, "maxms", 25000)
 
@@ -130,13 +152,17 @@ func nlRunLife(a map[string]string) string {
 		var ownClosed int32
 		go func() { // reader: everything the client sends, and how the connection ends
 			defer close(rdone)
-			buf := make([]byte, 4096)
+			buf := make([]byte, 65536)
 			total := 0
 			lf := false
 			for {
 				n, err := c.Read(buf)
 				if n > 0 {
-					tr.log("", "rx:"+ks+":"+hx(buf[:n]))
+					if n > 32 {
+						tr.log("", "rx:"+ks+":"+hx(buf[:32])+":+"+strconv.Itoa(n))
+					} else {
+						tr.log("", "rx:"+ks+":"+hx(buf[:n]))
+					}
 					if total < 6 && total+n >= 6 {
 						close(gotPing)
 					}
@@ -233,6 +259,23 @@ func nlRunLife(a map[string]string) string {
 				tr.sleep(2*time.Millisecond, stop)
 			}
 		}
+		if k <= cyc && (loss == "stall" || loss == "over") {
+			// the panel does not close: it goes silent (stall) or announces a frame beyond the client's limit (over);
+			// either way the client has to end the connection by itself (or not at all, when nothing is pending)
+			tr.sleep(20*time.Millisecond, stop)
+			if loss == "over" {
+				tr.log("pst"+ks, "ovr:"+ks)
+				c.Write([]byte{0x20, 0xa1, 0x07, 0x00}) // 500000
+			} else {
+				tr.log("pst"+ks, "pst:"+ks+":"+strconv.Itoa(off))
+			}
+			select {
+			case <-rdone:
+			case <-stop:
+			}
+			c.Close()
+			return
+		}
 		if k <= cyc {
 			tr.sleep(20*time.Millisecond, stop)
 			tr.log("pcl"+ks, "pcl:"+ks+":"+strconv.Itoa(off))
@@ -319,6 +362,8 @@ func nlRunLife(a map[string]string) string {
 	if fs, ok := a["feed"]; ok {
 		fev, fms := nlParseTrigger(fs)
 		fn, fi := nlInt(a, "fn", 3), nlInt(a, "fi", 150)
+		fb := nlInt(a, "fb", 0)
+		ftxt := strings.Repeat("x", fb)
 		pwg.Add(1)
 		go func() { // the application: traffic towards the panel, whatever state the client is in
 			defer pwg.Done()
@@ -328,8 +373,12 @@ func nlRunLife(a map[string]string) string {
 			for i := 1; i <= fn; i++ {
 				is := strconv.Itoa(i)
 				tr.log("", "feed:"+is)
+				list := []*rwp.InboundMessage{{States: []*rwp.HWCState{{HWCIDs: []uint32{uint32(i)}, HWCMode: &rwp.HWCMode{State: rwp.HWCMode_ON}}}}}
+				if fb > 0 {
+					list = []*rwp.InboundMessage{{States: []*rwp.HWCState{{HWCIDs: []uint32{uint32(i)}, HWCText: &rwp.HWCText{Title: ftxt}}}}}
+				}
 				select {
-				case toPanel <- []*rwp.InboundMessage{{States: []*rwp.HWCState{{HWCIDs: []uint32{uint32(i)}, HWCMode: &rwp.HWCMode{State: rwp.HWCMode_ON}}}}}:
+				case toPanel <- list:
 					tr.log("", "fed:"+is)
 				case <-stop:
 					return
@@ -343,17 +392,39 @@ func nlRunLife(a map[string]string) string {
 	label := strconv.FormatInt(atomic.AddInt64(&nlScriptSeq, 1), 10)
 
 	delDone := make(chan struct{})
-	go func() {
+	var pauseCh chan struct{} // closed when the consumer is to stop receiving for a while
+	cdur := nlInt(a, "cdur", 600)
+	if ps, ok := a["cpause"]; ok {
+		pev, pms := nlParseTrigger(ps)
+		pc := make(chan struct{})
+		pauseCh = pc
+		pwg.Add(1)
+		go func() {
+			defer pwg.Done()
+			if tr.wait(pev, time.Duration(maxms)*time.Millisecond, stop) && tr.sleep(time.Duration(pms)*time.Millisecond, stop) {
+				close(pc)
+			}
+		}()
+	}
+	go func(pch chan struct{}) { // the consumer of msgsFromPanel
 		defer close(delDone)
 		for {
 			select {
 			case m := <-fromPanel:
 				tr.log("", "del:"+nlMsgTok(m))
+			case <-pch:
+				pch = nil
+				tr.log("cstop", "cstop")
+				ok := tr.sleep(time.Duration(cdur)*time.Millisecond, stop)
+				tr.log("cres", "cres")
+				if !ok {
+					return
+				}
 			case <-stop:
 				return
 			}
 		}
-	}()
+	}(pauseCh)
 	onconnect := func(errMsg string, bin bool, c net.Conn) {
 		k := int(atomic.AddInt32(&conCount, 1))
 		tr.log("con"+strconv.Itoa(k), "con:"+strconv.Itoa(k)+":"+b01(bin)+":"+hx([]byte(errMsg)))
@@ -559,6 +630,10 @@ func nlLifeRec(mode string, s *nlStream, kv ...string) nlRec {
 	if mode == "absent" || mode == "late" {
 		cost += 4000
 	}
+	if m["loss"] == "stall" {
+		cost += nlInt(m, "cyc", 0) * 2000
+	}
+	cost += nlInt(m, "cdur", 0)
 	return nlRec{cmd: "life.run", args: args, cost: cost}
 }
 
@@ -573,10 +648,9 @@ func genC11(r *Rng, n int, tier string) {
 	for cut := 0; cut <= len(bs.bytes); cut++ {
 		add("bin", &bs, "cyc=1", "cut="+i2(cut), "cancel=held+300")
 	}
+	// (ASCII: every offset, so that a partial line at an orderly close is covered whatever its length)
 	for cut := 0; cut <= len(as.bytes); cut++ {
-		if thorough || cut%2 == 0 || cut == len(as.bytes) {
-			add("asc", &as, "cyc=1", "cut="+i2(cut), "cancel=held+300")
-		}
+		add("asc", &as, "cyc=1", "cut="+i2(cut), "cancel=held+300")
 	}
 	// segmented writes with a drop
 	for _, cut := range []int{0, 3, 4, 5, bs.bounds[0], bs.bounds[0] + 2, bs.bounds[1] + 4, len(bs.bytes) - 1, len(bs.bytes)} {
@@ -672,6 +746,43 @@ func genC11(r *Rng, n int, tier string) {
 	}
 	add("asc", &as, "cyc=1", "cut="+i2(as.bounds[1]), "feed=pcl1+300", "fn=3", "fi=200", "cancel=held+300")
 	add("refuse", nil, "rc=2", "feed=dis1+400", "fn=2", "fi=100", "cancel=dis2+300")
+	// (3b) the reader ends the connection itself: the panel goes silent inside a frame (2 s in-frame deadline) or
+	//      announces a frame beyond the limit; the client must report an uncancelled disconnect, reconnect after the
+	//      retry period and deliver again; cancellation during the stall; silence at a frame boundary / inside an ASCII
+	//      line is NOT a reason to leave the connection
+	for _, cut := range []int{1, 3, 5, bs.bounds[0] + 2, bs.bounds[1] + 4, len(bs.bytes) - 1} {
+		add("bin", &bs, "cyc=1", "cut="+i2(cut), "loss=stall", "cancel=held+300")
+	}
+	add("bin", &bs, "rc=2", "cyc=2", "cut="+i2(bs.bounds[0]+1), "loss=stall", "cancel=held+300")
+	add("bin", &bs, "cyc=1", "cut="+i2(bs.bounds[0]+3), "seg=1", "loss=stall", "cancel=held+300")
+	for _, cut := range []int{0, bs.bounds[0], bs.bounds[1], len(bs.bytes)} {
+		add("bin", &bs, "cyc=1", "cut="+i2(cut), "loss=over", "cancel=held+300")
+	}
+	add("bin", &bs, "cyc=2", "cut="+i2(bs.bounds[1]), "loss=over", "cancel=dis2+400")
+	add("bin", &bs, "cyc=1", "cut="+i2(bs.bounds[0]+2), "loss=stall", "cancel=pst1+1000")
+	add("bin", &bs, "cyc=1", "cut="+i2(bs.bounds[0]+2), "loss=stall", "cancel=dis1+500")
+	add("bin", &bs, "cyc=1", "cut="+i2(bs.bounds[1]), "loss=stall", "cancel=pst1+2600")
+	add("asc", &as, "cyc=1", "cut="+i2(as.bounds[0]+3), "loss=stall", "cancel=pst1+2600")
+	// (3c) the consumer of msgsFromPanel stops receiving for a while (the client must block, not drop): pause while the
+	//      whole stream arrives, cancel after / inside the pause, pause across a panel drop and across a reader fault
+	for _, mode := range []string{"bin", "asc"} {
+		s := &bs
+		if mode == "asc" {
+			s = &as
+		}
+		add(mode, s, "cpause=con1+0", "cdur=700", "cancel=held+1000")
+		add(mode, s, "cpause=con1+0", "cdur=1200", "cancel=held+400")
+		add(mode, s, "cyc=1", "cut="+i2(len(s.bytes)), "cpause=con1+0", "cdur=800", "cancel=held+300")
+		add(mode, s, "cyc=1", "cut="+i2(s.bounds[1]+2), "cpause=con1+0", "cdur=600", "cancel=held+300")
+		add(mode, s, "seg=3", "cpause=con1+40", "cdur=500", "cancel=held+900")
+	}
+	add("bin", &bs, "cyc=1", "cut="+i2(bs.bounds[1]+2), "loss=stall", "cpause=con1+0", "cdur=2600", "cancel=held+300")
+	// (3d) heavy traffic towards the panel across two losses: the writer goroutine is inside conn.Write when the
+	//      connection goes away; it must neither survive its connection nor take the reader with it
+	add("bin", &bs, "cyc=2", "cut="+i2(bs.bounds[0]), "feed=con1+0", "fn=60", "fi=15", "fb=20000", "cancel=held+300")
+	add("asc", &as, "cyc=2", "cut="+i2(as.bounds[0]), "feed=con1+0", "fn=40", "fi=15", "fb=20000", "cancel=held+300")
+	add("bin", &bs, "cyc=1", "cut="+i2(bs.bounds[0]+2), "loss=stall", "feed=con1+0", "fn=40", "fi=60", "fb=20000", "cancel=held+300")
+	add("bin", &bs, "feed=con1+0", "fn=40", "fi=10", "fb=50000", "cancel=held+300")
 	// (4) panel closing right after accept; cancellation while it keeps doing so
 	add("refuse", nil, "cancel=dis1+300")
 	add("refuse", nil, "cancel=dis2+300")
@@ -688,7 +799,24 @@ func genC11(r *Rng, n int, tier string) {
 			mode, s = "asc", &as
 		}
 		cyc := r.Intn(3)
-		kv := []string{"rc=" + i2(r.Pick(0, 1, 2)), "cyc=" + i2(cyc), "cut=" + i2(r.Intn(len(s.bytes)+1)), "seg=" + i2(r.Pick(0, 0, 1, 3, 7))}
+		cut := r.Intn(len(s.bytes) + 1)
+		loss := ""
+		if mode == "bin" && cyc > 0 && r.Chance(25) {
+			f := r.Intn(len(s.bounds))
+			lo := 0
+			if f > 0 {
+				lo = s.bounds[f-1]
+			}
+			if r.Bool() {
+				loss, cut = "stall", lo+1+r.Intn(s.bounds[f]-lo-1) // strictly inside frame f
+			} else {
+				loss, cut = "over", lo // at a frame boundary
+			}
+		}
+		kv := []string{"rc=" + i2(r.Pick(0, 1, 2)), "cyc=" + i2(cyc), "cut=" + i2(cut), "seg=" + i2(r.Pick(0, 0, 1, 3, 7))}
+		if loss != "" {
+			kv = append(kv, "loss="+loss)
+		}
 		switch r.Intn(6) {
 		case 0:
 			kv = append(kv, "hold="+i2(r.Intn(len(s.bytes)+1)), "cancel=held+"+i2(r.Range(200, 600)))
@@ -705,6 +833,12 @@ func genC11(r *Rng, n int, tier string) {
 		}
 		if r.Chance(15) {
 			kv = append(kv, "twice=1")
+		}
+		if r.Chance(20) {
+			kv = append(kv, "cpause=con1+"+i2(r.Range(0, 60)), "cdur="+i2(r.Range(200, 900)))
+		}
+		if r.Chance(20) {
+			kv = append(kv, "feed=con1+"+i2(r.Range(0, 200)), "fn="+i2(r.Range(2, 20)), "fi="+i2(r.Range(5, 80)), "fb="+i2(r.Pick(0, 0, 2000, 30000)))
 		}
 		add(mode, s, kv...)
 	}
